@@ -161,6 +161,8 @@ pub struct InstOpts {
     pub scan_cases: usize,
     pub fifo: bool,
     pub known: Arc<BTreeSet<(String, String)>>,
+    /// length of 'large' filter replacements (must be the same for every tree of a lock-step group)
+    pub filter_large_len: usize,
 }
 
 pub struct Instance {
@@ -203,6 +205,8 @@ pub struct Instance {
     pub last_blob_ids: BTreeSet<u64>,
     /// blob file id -> name of the op whose version change removed it from the version
     pub blob_left_by: BTreeMap<u64, String>,
+    /// physical entries (seqno, type) of single-delete keys before the current structural op
+    pub phys_prev: BTreeMap<Key, Vec<(u64, u8, u64)>>,
 }
 
 fn to_bound(b: &Bound<Key>) -> Bound<Key> {
@@ -236,7 +240,7 @@ impl Instance {
     pub fn create(dir: &Path, cfg: TreeCfg, uni: Arc<Universe>, opts: InstOpts) -> Result<Self, Violation> {
         let filter = opts.filter_seed.map(|seed| {
             let weak_ok = uni.of_class(Class::W).into_iter().map(|i| uni.keys[i].clone()).collect();
-            let large_len = cfg.kv.as_ref().map_or(300, |kv| (kv.threshold as usize + 3).max(12));
+            let large_len = opts.filter_large_len;
             Arc::new(FilterShared { seed, log: Mutex::new(vec![]), weak_ok, large_len, made: Mutex::new(0) })
         });
         let mut me = Self {
@@ -274,6 +278,7 @@ impl Instance {
             ingested_blobs: false,
             last_blob_ids: BTreeSet::new(),
             blob_left_by: BTreeMap::new(),
+            phys_prev: BTreeMap::new(),
         };
         me.open_tree(&["C04"])?;
         Ok(me)
@@ -354,7 +359,21 @@ impl Instance {
     fn blame(&self, base: &[&'static str]) -> Vec<&'static str> {
         let mut t: Vec<&'static str> = base.to_vec();
         t.extend(self.ctx_tags.iter().copied());
+        self.blame_common(t)
+    }
+
+    /// Tags for failures of the op itself (panic / Err): the op's own properties, not the context.
+    fn blame_op(&self, op: &Op) -> Vec<&'static str> {
+        let mut t: Vec<&'static str> = vec!["C01"];
+        t.extend(op_tags(op));
+        self.blame_common(t)
+    }
+
+    fn blame_common(&self, mut t: Vec<&'static str>) -> Vec<&'static str> {
         if self.is_blob() {
+            // C01 is stated for the standard tree configurations; whatever only a KV-separated
+            // tree gets wrong is a C08 matter (the standard instances answer for C01)
+            t.retain(|x| *x != "C01");
             t.push("C08");
         }
         if self.fifo {
@@ -401,8 +420,7 @@ impl Instance {
             Err(_) => {
                 let p = hooks::take_panic().unwrap_or_default();
                 let site = p.rsplit(" @ ").next().unwrap_or("").to_string();
-                let mut tags = self.blame(&["C01"]);
-                tags.extend(op_tags(op));
+                let tags = self.blame_op(op);
                 let sig = if p.contains("vptr was not matched with blob") && self.ingested_blobs {
                     // relocation of blob files that hold frames written by bulk ingestion
                     "panic:vptr-not-matched:tree-holds-ingested-blob-frames".to_string()
@@ -419,14 +437,17 @@ impl Instance {
     }
 
     fn op_err(&self, op: &Op, what: &str, e: &lsm_tree::Error) -> Violation {
-        let mut tags = self.blame(&["C01"]);
-        tags.extend(op_tags(op));
+        let tags = self.blame_op(op);
         Violation::new(&tags, format!("error:{}:{what}", op.name()), format!("{what} returned Err in a fault-free run: {e:?}"))
     }
 
     fn exec_inner(&mut self, _idx: usize, op: &Op) -> Result<(), Violation> {
         bump(&mut self.counters, &format!("op:{}", op.name()), 1);
         let nkeys = self.uni.keys.len().max(1);
+        if !op.is_write() && self.tree.is_some() {
+            // physical state of the single-delete keys right before a structural op
+            self.phys_prev = self.physical_w_entries();
+        }
         match op {
             Op::Put { k, vlen } => {
                 let k = *k % nkeys;
@@ -534,6 +555,9 @@ impl Instance {
                         .with_level_ratio_policy(vec![f32::from(*ratio)]);
                     let before = self.latest().0;
                     self.tree().compact(Arc::new(strat), t).map_err(|e| self.op_err(op, "compact(leveled)", &e))?;
+                    if std::env::var_os("LSMV_TRACE").is_some() {
+                        eprintln!("    [leveled rep] watermark={t} layout={}", self.describe_layout().render());
+                    }
                     self.set_ctx(&[], "leveled");
                     self.after_compaction()?;
                     self.post_structural()?;
@@ -888,13 +912,20 @@ impl Instance {
             ));
         }
         // C09: statistics survive reopen unchanged
+        let listed: BTreeSet<u64> = self.tree().current_version().blob_files.iter().map(lsm_tree::BlobFile::id).collect();
         let gc_now: BTreeMap<u64, (usize, u64, u64)> = self
             .tree()
             .current_version()
             .gc_stats()
             .iter()
+            .filter(|(k, _)| listed.contains(k))
             .map(|(k, v)| (*k, verif::frag_entry_parts(v)))
             .collect();
+        // statistics of blob files of the version must survive; entries of files that already
+        // left the version are not part of the property (they are the subject of a known finding)
+        if let Some(g) = self.gc_before_reopen.as_mut() {
+            g.retain(|k, _| listed.contains(k));
+        }
         if Some(&gc_now) != self.gc_before_reopen.as_ref() {
             return Err(Violation::new(
                 &["C09", "C04"],
@@ -1055,6 +1086,46 @@ impl Instance {
         self.seqno_marks()?;
         self.record_layout();
         self.battery(true, &[])
+    }
+
+    /// Physical entries of the single-delete keys: table contents plus memtable entries.
+    fn physical_w_entries(&mut self) -> BTreeMap<Key, Vec<(u64, u8, u64)>> {
+        let mut out: BTreeMap<Key, Vec<(u64, u8, u64)>> = BTreeMap::new();
+        let wkeys: BTreeSet<Key> = self.uni.of_class(Class::W).into_iter().map(|i| self.uni.keys[i].clone()).collect();
+        if wkeys.is_empty() {
+            return out;
+        }
+        let v = self.tree().current_version();
+        for table in v.iter_tables() {
+            let key = (table.id(), table.checksum().into_u128(), table.global_seqno());
+            let s = if let Some(s) = self.cache.tables.get(&key) {
+                s.clone()
+            } else {
+                self.cache.tables_scanned += 1;
+                let s = Arc::new(audit::summarize_table(table));
+                self.cache.tables.insert(key, s.clone());
+                s
+            };
+            for (k, es) in &s.entries {
+                if wkeys.contains(k) {
+                    out.entry(k.clone()).or_default().extend(es.iter().map(|(sq, ty)| (*sq, *ty, table.id())));
+                }
+            }
+        }
+        drop(v);
+        for (k, es) in &self.model.newest().map {
+            if wkeys.contains(k) {
+                for e in es.iter().filter(|e| e.loc != Loc::Persisted) {
+                    let ty = match e.kind {
+                        MKind::Put(_) => 0,
+                        MKind::Del => 1,
+                        MKind::WeakDel => 2,
+                    };
+                    out.entry(k.clone()).or_default().push((e.seqno, ty, u64::MAX));
+                }
+            }
+        }
+        out
     }
 
     fn record_layout(&mut self) {
@@ -1354,18 +1425,19 @@ impl Instance {
     pub fn check_point(&mut self, key: &[u8], sel: SnapSel) -> Result<(), Violation> {
         let s = sel.seq();
         let exp = self.model.read(key, s);
-        let t = self.tree();
+        let t = self.tree().clone();
         let got = t.get(key, s);
         let contains = t.contains_key(key, s);
         let size = t.size_of(key, s);
         let internal = t.get_internal_entry(key, s);
         bump(&mut self.counters, "point_comparisons", 4);
         let tags = self.read_tags(key, sel, false);
-        let fail = |what: &str, detail: String| -> Violation {
+        let ctx_name = self.ctx_name.clone();
+        let fail = move |what: &str, detail: String| -> Violation {
             Violation::new(
                 &tags,
                 format!("point:{what}:{}", sel.kind()),
-                format!("key {:?} at {} ({}): {detail}; last structural op: {}", esc(key), sel.describe(), what, self.ctx_name),
+                format!("key {:?} at {} ({}): {detail}; last structural op: {}", esc(key), sel.describe(), what, ctx_name),
             )
         };
         let (got, contains, size, internal) = match (got, contains, size, internal) {
@@ -1385,7 +1457,37 @@ impl Instance {
             Expect::Exact(None) => {
                 if let Some(v) = got {
                     let which = self.identify(key, &v);
-                    return Err(fail("resurrected", format!("expected absent, get returned {:?} ({which})", esc(&v[..v.len().min(32)]))));
+                    // How many weak deletes does the model hold above the write this value belongs to?
+                    let weak_above = self
+                        .model
+                        .world_for(s)
+                        .map
+                        .get(key)
+                        .and_then(|es| es.iter().position(|e| matches!(&e.kind, MKind::Put(x) if x.as_slice() == v.as_ref())).map(|p| es[p + 1..].iter().filter(|e| e.kind == MKind::WeakDel && e.seqno < s).count()))
+                        .unwrap_or(0);
+                    // Known-finding shape: an OLDER generation of the key (two or more weak deletes
+                    // above it) resurfaces from a table the op did not rewrite. If the resurfaced
+                    // entry was part of the op's input (it sits in a new table now), correct code
+                    // would have drained it together with the newer versions: a different violation.
+                    let a_seq = self
+                        .model
+                        .world_for(s)
+                        .map
+                        .get(key)
+                        .and_then(|es| es.iter().find(|e| matches!(&e.kind, MKind::Put(x) if x.as_slice() == v.as_ref())).map(|e| e.seqno));
+                    let phys_now = self.physical_w_entries();
+                    let phys_dbg = format!("physical (seqno,type,table) before the op: {:?}, now: {:?}", self.phys_prev.get(key), phys_now.get(key));
+                    let table_of = |m: &BTreeMap<Key, Vec<(u64, u8, u64)>>, a: u64| m.get(key).and_then(|es| es.iter().find(|e| e.0 == a).map(|e| e.2));
+                    let untouched = a_seq.is_some_and(|a| {
+                        let before = table_of(&self.phys_prev, a);
+                        before.is_some() && before != Some(u64::MAX) && before == table_of(&phys_now, a)
+                    });
+                    let what = if weak_above >= 2 && untouched { "resurrected-older-generation-from-untouched-table" } else { "resurrected" };
+                    let viol = fail(what, format!("expected absent, get returned {:?} ({which}; {weak_above} weak delete(s) above it; {phys_dbg})", esc(&v[..v.len().min(32)])));
+                    // a listed known finding is recorded; the key is excluded from further checks
+                    self.tolerate(viol)?;
+                    self.model.poison(key);
+                    return Ok(());
                 }
                 if contains {
                     return Err(fail("contains_key", "expected absent, contains_key returned true".into()));
